@@ -17,6 +17,14 @@ def rapid(name, test, quick, thorough, **kw):
     return d
 
 CHECKS = {
+    "C09": {
+        "level": "fault_enumeration",
+        "phases": [
+            rapid("prop", "TestProp",
+                  {"checks": 1500, "shards": 12, "timeout": 400},
+                  {"checks": 20000, "shards": 16, "timeout": 2400}),
+        ],
+    },
     "C18": {
         "level": "exploration",
         "exhaustive_phases": [],
@@ -44,6 +52,9 @@ CHECKS = {
             rapid("prop", "TestProp",
                   {"checks": 6000, "shards": 12, "timeout": 300},
                   {"checks": 300000, "shards": 16, "timeout": 1800}),
+            plain("giant", "TestGiant",
+                  {"shards": 2, "timeout": 300},
+                  {"shards": 5, "timeout": 900}, replay_test="TestReplayGiant"),
         ],
     },
 }
